@@ -276,8 +276,8 @@ class _Transport:
         return default
 
 
-def toml_text(root: str, rules) -> str:
-    out = ["[server]", f"document_root = {json.dumps(root)}", ""]
+def toml_text(root: str, rules, server_extra=()) -> str:
+    out = ["[server]", f"document_root = {json.dumps(root)}", *server_extra, ""]
     if rules is not None:
         if not rules:
             out += ["[certificate_auth]", "paths = []"]
@@ -544,6 +544,225 @@ class Capsule(Family):
         return case["via"] + ":" + (feat or "-") + " " + ",".join(sorted(ks))[:64]
 
 
+# ----------------------------------------------------------------------------------------------
+# the server as it is started and used: `nauyaca serve --config … [--require-client-cert]`, several TLS connections at once
+# ----------------------------------------------------------------------------------------------
+def gen_schedule(rnd: random.Random, k: int):
+    """an order of events for k connections: ["h", i] = connection i completes its TLS handshake, ["r", i] = it sends its
+    request line and reads the answer; a connection may wait (other handshakes and requests in between) before it asks"""
+    steps, waiting, nxt = [], [], 0
+    patience = rnd.choice([0.0, 0.3, 0.6, 0.8])       # 0: strictly one connection after the other
+    while nxt < k or waiting:
+        if nxt < k and (not waiting or rnd.random() < patience):
+            steps.append(["h", nxt])
+            waiting.append(nxt)
+            nxt += 1
+        else:
+            i = waiting.pop(rnd.randrange(len(waiting)) if rnd.random() < 0.7 else 0)
+            steps.append(["r", i])
+    return steps
+
+
+def run_served(case):
+    from nauyaca.protocol.request import GeminiRequest
+    from nauyaca.server.handler import StaticFileHandler
+
+    from ..sim import fs_serve as SV
+
+    P.state()
+    with T.Built(case["tree"]) as built:
+        ref = StaticFileHandler(built.root, enable_directory_listing=bool(case["listing"]))     # what each request denotes
+        conns = case["conns"]
+
+        async def probe(factory, tls=True):
+            live, res = {}, [None] * len(conns)
+            try:
+                for what, i in case["steps"]:
+                    cid, sp, t13 = conns[i]
+                    if what == "h":
+                        if tls:
+                            live[i] = SV.TlsConn(factory, cid, tls13=bool(t13))
+                            if not live[i].handshake():
+                                res[i] = b"<no handshake>"
+                        await SV.settle(2)
+                        continue
+                    line = ("gemini://h" + sp).encode("utf-8") + b"\r\n"
+                    if not tls:
+                        # the server listens with the standard-library TLS backend, which asks nobody for a certificate
+                        res[i], _ = await SV.plain_request(factory, line)
+                    elif res[i] is None:
+                        live[i].send(line)
+                        res[i] = await live[i].collect()
+                        live[i].close()
+            finally:
+                for c in live.values():
+                    c.close()
+            return res
+
+        info = {"started": True, "exit": 0, "said": "", "tls": True}
+        if case["via"] == "cli":
+            cfgdir = core.mkdtemp("nv-c05cfg-") if not hasattr(run_served, "_d") else run_served._d
+            run_served._d = cfgdir
+            cert, key = SV.server_cert_files()
+            extra = [f"certfile = {json.dumps(cert)}", f"keyfile = {json.dumps(key)}"] + (["require_client_cert = true"] if case["ask"] else [])
+            cfg = os.path.join(cfgdir, "server.toml")
+            with open(cfg, "w", encoding="utf-8") as fh:
+                fh.write(toml_text(built.root, case["rules"], extra) + "\n[rate_limit]\nenabled = false\n")
+            argv = ["--config", cfg] + (["--enable-directory-listing"] if case["listing"] else []) + (["--require-client-cert"] if case["flag"] else [])
+            holder = {}
+
+            async def cli_probe(factory):
+                holder["tls"] = type(factory()).__name__ == "TLSServerProtocol"
+                return await probe(factory, holder["tls"])
+
+            ran = SV.run_serve(argv, cli_probe)
+            raw = ran["value"] or []
+            info = {"started": ran["started"], "exit": ran["exit"], "said": " ".join((ran["output"] or "").replace(built.base, "<base>").split())[-200:] if not ran["started"] else "",
+                    "tls": holder.get("tls", True)}
+        else:
+            from nauyaca.server.middleware import CertificateAuth, MiddlewareChain
+            from nauyaca.server.protocol import GeminiServerProtocol
+            from nauyaca.server.tls_protocol import TLSServerProtocol
+
+            cfg_obj, _seen = build_auth(dict(case, via="obj"), built)
+            chain = MiddlewareChain([CertificateAuth(cfg_obj)]) if cfg_obj is not None else None
+            ctx = P.state()["server_ctx"]
+            loop = asyncio.new_event_loop()
+            try:
+                raw = loop.run_until_complete(probe(lambda: TLSServerProtocol(lambda: GeminiServerProtocol(ref.handle, chain), ctx)))
+            finally:
+                loop.close()
+        res = []
+        for (cid, sp, _t13), out in zip(conns, raw):
+            o = {}
+            try:
+                req = GeminiRequest.from_line("gemini://h" + sp)
+            except ValueError:
+                req = None
+            if req is not None:
+                try:
+                    b = ref.handle(req)
+                    o["base"], o["bx"] = T.canon_response(b.status, b.meta, b.body, req.path, built)
+                except Exception:  # noqa: BLE001
+                    o["base"], o["bx"] = ["raised"], {"st": 40, "sent": [], "names": None}
+            st, meta, body = T.parse_wire(out or b"")
+            o["r"], o["x"] = T.canon_response(st, meta, body, req.path if req is not None else "/", built)
+            res.append(o)
+        return dict(info, res=res, ents_ok=built.ents == [list(e) for e in case["tree"]])
+
+
+class Served(Family):
+    """The whole server as an operator runs it and as clients use it.  `nauyaca serve --config <toml>` - with and without
+    the command-line flag --require-client-cert, with and without `[server] require_client_cert` - is really run (only
+    `loop.create_server` is stubbed; configuration, the glue in `serve`, `start_server`, the middleware chain and the
+    PyOpenSSL TLS backend are the real ones), or the same stack is put together from objects.  SEVERAL TLS connections
+    are open at once: handshakes (with one of six client certificates or none) and request lines are interleaved, a
+    connection may complete its handshake, wait while others come and go, and only then ask.  Every answer is judged by
+    the reference policy of the property: the rules WRITTEN IN THE FILE, the canonical location of whatever content the
+    answer carries, and the certificate THIS connection presented."""
+    name = "served"
+    quick_n = 480
+    thorough_n = 9000
+
+    def setup(self):
+        from nauyaca.protocol.constants import DEFAULT_MAX_FILE_SIZE
+        self.def_max = int(DEFAULT_MAX_FILE_SIZE)
+        P.state()
+
+    def gen(self, rng: random.Random, n: int):
+        for i in range(n):
+            tree = T.settle(gen_capsule(rng))
+            rules = gen_rules(rng, tree)
+            while rules is not None and not rules and rng.random() < 0.8:
+                rules = gen_rules(rng, tree)
+            files = [(loc_of(e[1]), False) for e in tree if e[0] == "f"] + [(loc_of(e[1]).rstrip("/") + "/", True) for e in tree if e[0] == "d"]
+            guarded = [(l, d) for l, d in files if (covering(rules, l) or [0, None, None])[1] or (covering(rules, l) or [0, None, None])[2] is not None]
+            k = rng.choice([1, 2, 2, 3, 3, 4, 5, 6])
+            conns = []
+            focus = rng.choice(guarded) if guarded and rng.random() < 0.75 else None     # several clients after the same protected resource
+            for _ in range(k):
+                loc, is_dir = focus if focus and rng.random() < 0.7 else rng.choice(guarded if guarded and rng.random() < 0.6 else files)
+                sp = loc if rng.random() < 0.6 else spell(rng, loc, is_dir, rules)
+                if T.url_path(sp)[0] != "ok":
+                    sp = loc
+                r = covering(rules, loc)
+                if r is not None and r[2] and rng.random() < 0.5:
+                    cid = rng.choice(r[2])                              # a listed certificate
+                else:
+                    cid = rng.choice(PRESENTED)
+                conns.append([cid, sp, int(rng.random() < 0.5)])
+            via = "cli" if rng.random() < 0.7 else "obj"
+            yield {"tree": tree, "rules": rules, "via": via, "listing": int(rng.random() < 0.4),
+                   "flag": int(via == "cli" and rng.random() < 0.45), "ask": int(via == "cli" and rng.random() < 0.5),
+                   "conns": conns, "steps": gen_schedule(rng, k)}
+
+    def impl(self, case):
+        return run_served(case)
+
+    def _as_capsule(self, case):
+        return dict(case, reqs=[[sp, cid, "e"] for cid, sp, _t in case["conns"]])
+
+    def model(self, case):
+        if case["flag"] and not case["rules"]:
+            return None          # the flag without rules in the file: no rule list to apply (nothing the property speaks about)
+        return Capsule.model(self, self._as_capsule(case))
+
+    def expect(self, case, out):
+        return Capsule.expect(self, case, out)
+
+    def same(self, expected, obs):
+        if not obs["started"] or not obs["ents_ok"] or len(expected) != len(obs["res"]):
+            return False
+        return all(o["r"] == T.wire_of(e) for e, o in zip(expected, obs["res"]))
+
+    def oracle(self, case, obs):
+        if not obs["started"]:
+            return None          # nothing was delivered to anybody
+        found = Capsule._failures(self, self._as_capsule(case), obs)
+        found = [f for f in found if f[0] != "prefix-inside-name"] or found
+        if not found:
+            return None
+        sig, why = found[0]
+        ctx = ("`nauyaca serve --config <toml>" + (" --require-client-cert" if case["flag"] else "") + "`" + (" ([server] require_client_cert = true)" if case["ask"] else "")
+               if case["via"] == "cli" else "TLSServerProtocol + GeminiServerProtocol + CertificateAuth put together from objects")
+        who = ", ".join(f"#{i}: {'no certificate' if c[0] is None else 'certificate %d' % c[0]} asks {c[1]!r}" for i, c in enumerate(case["conns"]))
+        order = " ".join(f"{'handshake' if w == 'h' else 'request'}#{i}" for w, i in case["steps"])
+        return (sig, f"{ctx}; connections {who}; order of events: {order} - {why}")
+
+    def key(self, case, obs):
+        if not obs["started"]:
+            return f"{case['via']}:flag{case['flag']}:NOSTART"
+        steps = case["steps"]
+        # how many other handshakes complete between a connection's own handshake and its request
+        between = 0
+        for i in range(len(case["conns"])):
+            a, b = steps.index(["h", i]), steps.index(["r", i])
+            between = max(between, sum(1 for w, _j in steps[a + 1:b] if w == "h"))
+        sts = sorted({o["r"][0] for o in obs["res"]})
+        return f"{case['via']}:flag{case['flag']}:ask{case['ask']}:{'tls' if obs['tls'] else 'plain'}:between{min(between, 3)} " + ",".join(sts)
+
+    def shrink(self, case, bad):
+        """fewer connections, then without the command-line flag / the [server] switch"""
+        cur = case
+        try:
+            for k in ("flag", "ask"):
+                if cur.get(k) and bad(dict(cur, **{k: 0})):
+                    cur = dict(cur, **{k: 0})
+            again = True
+            while again and len(cur["conns"]) > 1:
+                again = False
+                for j in range(len(cur["conns"])):
+                    conns = cur["conns"][:j] + cur["conns"][j + 1:]
+                    steps = [[w, i - (i > j)] for w, i in cur["steps"] if i != j]
+                    c = dict(cur, conns=conns, steps=steps)
+                    if bad(c):
+                        cur, again = c, True
+                        break
+        except Exception:  # noqa: BLE001
+            pass
+        return cur
+
+
 class MwOnly(Family):
     """`CertificateAuth.process_request` alone against `Mw.Cert.process` (many more rule lists and paths)"""
     name = "mw"
@@ -672,4 +891,4 @@ class PumpCert(Family):
         return f"{obs['status']}|cert{case['cert']}|allowed{'N' if case['allowed'] is None else len(case['allowed'])}|req{int(case['require'])}"
 
 
-FAMILIES = [Capsule(), MwOnly(), PumpCert()]
+FAMILIES = [Capsule(), Served(), MwOnly(), PumpCert()]
